@@ -70,3 +70,150 @@ Example C20_nonvacuous :
   snd r = [Ret Success; Ret Success; Ret Success; Ret Success; Ret Success; Ret Success; Ret Success; Ret BadAPIArgument]
   /\ c_done (fst r) = [[OStart [97]; OAppend 0 3 [1; 2; 3]; OEnd 0; OFinalize]].
 Proof. vm_compute. split; reflexivity. Qed.
+
+(* ====================================================================================== *)
+(* The READING side (work package capiread): CallbackInputRead::{read,seek},
+   mla_roarchive_extract(_internal), mla_roarchive_info(_internal) — model CApiRead.v. *)
+From MLA Require Import Reader Format Ecies Archive ArchiveProofs RoundTripWriter RoundTripBlocks
+  LinearRoundTripDefs CompLayer EncLayer CApiRead CApiReadProofs CApiReadThms.
+From Coq Require Import Permutation Sorted.
+
+From MLA Require Import CApiReadTie.
+(* Tie A: whence codes 0/1/2 of the three SeekFrom arms, the u32 clamp of the read request,
+   `iter.sort()` before the file-callback loop — as found in the source on this run *)
+Theorem C20_tie_read_side :
+  Src.CAPI_SEEK_WHENCE = [W_SET; W_CUR; W_END] /\
+  Src.CAPI_READ_CLAMP = clamp_u32 (2 ^ 32) /\
+  Src.CAPI_SORT_BEFORE_CALLBACKS = true.
+Proof. exact read_side_src. Qed.
+
+(* read / seek callbacks that implement a cursor over the archive bytes (ANY read sizes >= 1):
+   the adapter is a cursor in the sense every reader theorem is stated for *)
+Theorem C20_adapter_is_cursor : forall (C : cbsrc) (a : bytes) R,
+  CbCursor C a R -> len a < 2 ^ 63 -> Stream.Refines (CbIn C true) a R.
+Proof. exact cbin_refines. Qed.
+
+(* "extraction through the C interface hands each file's exact bytes to the writer the caller
+   supplied for it" — see the comment at CApiReadThms.extract_delivers for the quantifiers *)
+Theorem C20_extract_delivers :
+  forall CHUNK TAG CIPHERBUF BLOCK LIMIT FNMAX TS TC TA TE (H : bytes -> bytes) (order : footer -> footer)
+         (pubk : bytes -> bytes) (dh : bytes -> bytes -> bytes) (kdf : bytes -> bytes)
+         (wenc wdec wtag : bytes -> bytes -> bytes) (ksf : bytes -> bytes -> N -> N -> N)
+         (tagf : bytes -> bytes -> N -> bytes -> bytes) (dec : bytes -> bytes),
+  0 < CHUNK -> 0 < TAG -> 0 < CIPHERBUF -> 0 < BLOCK -> BLOCK < 2 ^ 32 ->
+  tags_distinct TS TC TA TE -> (forall x, len (H x) = 32) -> (forall f, Permutation (order f) f) ->
+  (forall k m, len m = 32 -> wdec k (wenc k m) = m) -> (forall e, len (pubk e) = 32) ->
+  (forall k m, len m = 32 -> len (wenc k m) = 32) -> (forall k c, len (wtag k c) = 16) ->
+  forall cfg cut_top cut_mid ops sf rs privs s,
+    let blocks := w_out sf in
+    let nb := nblocks BLOCK (len blocks) in
+    let a := ser_header (to_persistent pubk dh kdf wenc wtag cfg) ++ wire_of CHUNK BLOCK ksf tagf cfg blocks in
+    wrun FNMAX TS TC TA TE H order w_init (ops ++ [OFinalize]) = (sf, rs) ->
+    Forall (fun r => is_ok r = true) rs -> forallb op_utf8 ops = true ->
+    len blocks < 2 ^ 64 -> len (ser_footer_map (order (w_footer sf))) < 2 ^ 32 ->
+    (wc_compress cfg = true ->
+       (forall x, dec (wc_comp cfg x) = x) /\
+       (forall j, j < nb -> len (wc_comp cfg (block_at BLOCK blocks j)) < 2 ^ 32) /\
+       12 + 4 * nb <= LIMIT /\ 12 + 4 * nb < 2 ^ 32 /\ len blocks < 2 ^ 63) ->
+    (wc_encrypt cfg = true ->
+       len (wc_key cfg) = 32 /\ len (wc_nonce cfg) = 8 /\
+       (forall i c, len (tagf (wc_key cfg) (wc_nonce cfg) i c) = TAG) /\
+       nfull CHUNK (len (mid_of BLOCK cfg blocks)) + 2 < 2 ^ 32 /\
+       dh s (pubk (wc_eph cfg)) = dh (wc_eph cfg) (pubk s) /\
+       In (pubk s) (wc_recipients cfg) /\ In s privs) ->
+    config_size (to_persistent pubk dh kdf wenc wtag cfg) <= LIMIT ->
+    len a < 2 ^ 63 ->
+    archive_write CHUNK CIPHERBUF BLOCK LIMIT FNMAX TS TC TA TE H order pubk dh kdf wenc wtag ksf tagf cfg cut_top cut_mid ops = Ok a /\
+    (TagCollision pubk dh kdf wenc wtag (wc_eph cfg) (wc_key cfg) (wc_recipients cfg) privs \/
+     forall (C : cbsrc) (Rcb : cb_st C -> N -> Prop) (c0 : cb_st C) (p0 : N),
+       CbCursor C a Rcb -> Rcb c0 p0 ->
+     forall (d : bytes -> fdecision),
+       (forall nm, null_inside (fun _ => d) 0 nm = false) ->
+       (forall nm, forallb benign (sched_name d nm) = true) ->
+     forall fuel, (N.to_nat (len blocks) < fuel)%nat ->
+       let x := roarchive_extract CHUNK TAG BLOCK LIMIT FNMAX TS TC TA TE dh kdf wdec wtag ksf tagf dec
+                  true (Some privs) true true true C c0 (fun _ => d) fuel in
+       x_res x = Ret Success /\ x_cfg x = None /\
+       Permutation (x_asked x) (map fst (started 0 ops)) /\ NoDup (x_asked x) /\
+       LocallySorted bytes_le (x_asked x) /\
+       (forall name id, In (name, id) (started 0 ops) ->
+          if acc_name d name then exists s', x_sinks x name = Some (s', pieces 0 id ops)
+          else x_sinks x name = None)).
+Proof. exact extract_delivers. Qed.
+
+(* "callbacks that report failure return an error status and do not crash" — PARTIAL
+   (theorems C20_extract_cb_failure_partial_read and _seek): proved are (1) the adapter turns every non-zero status
+   of the read / seek callback into an io error — never Ok, never a crash — and every phase of
+   extract_internal / info maps an error of its component to a non-Success status (by
+   definition: CApiRead.of_res, st_of_rerr has no Success arm); (2) a write callback
+   reporting failure (other than the retried code 4, K20-EINTR) makes the extraction fail:
+   Success implies every invocation consumed was benign; delivery never crashes; (3) a NULL
+   write / flush callback inside an accepted FileWriter gives BadAPIArgument after the
+   earlier names were asked.  NOT proved: that an io error returned by the SOURCE in the
+   middle of the layer stack (raw / encryption / compression readers, footer, block walk)
+   always surfaces as an error of the phase and never as a crash — the layer theorems are
+   stated for sources that refine a cursor (DESIGN §4 C02 "not proved: sources returning
+   read errors").  That part is covered by the correspondence rows only (the k-th read /
+   seek invocation failing, swept over every phase, model = libmla.so). *)
+Theorem C20_extract_cb_failure_partial_read : forall C s n s' st lr d,
+  cb_read C s (clamp_u32 n) = (s', (st, lr, d)) -> st <> 0 -> cbin_rd C s n = (s', Err EIo).
+Proof. exact cbin_rd_failure. Qed.
+Theorem C20_extract_cb_failure_partial_seek : forall C s off wh s' st np,
+  cb_seek C s off wh = (s', (st, np)) -> st <> 0 -> cbin_call C true s off wh = (s', Err EIo).
+Proof. exact cbin_sk_failure. Qed.
+Theorem C20_adapter_no_crash : forall C s,
+  (forall n, is_crash (snd (cbin_rd C s n)) = false) /\ (forall w, is_crash (snd (cbin_sk C true s w)) = false).
+Proof. intros C s. split; [exact (cbin_rd_no_crash C s) | exact (cbin_sk_no_crash C s)]. Qed.
+Theorem C20_error_is_not_success : forall e, st_of_rerr e <> Success.
+Proof. intros []; discriminate. Qed.
+Theorem C20_extract_write_failure : forall out m m',
+  deliver out m = (m', Ok tt) ->
+  forall nm s g, m nm = Some (s, g) ->
+    exists used s' g', m' nm = Some (s', g') /\ s = used ++ s' /\ forallb benign used = true.
+Proof. exact deliver_ok_inv. Qed.
+Theorem C20_extract_write_no_crash : forall out m, is_crash (snd (deliver out m)) = false.
+Proof. exact deliver_no_crash. Qed.
+Theorem C20_extract_null_writer : forall decide names i asked exp pre nm post,
+  names = pre ++ nm :: post ->
+  (forall j n', In (j, n') (indexed i pre) -> null_inside decide j n' = false) ->
+  null_inside decide (i + length pre) nm = true ->
+  ask decide i names asked exp = (asked ++ pre ++ [nm], None).
+Proof. exact ask_null. Qed.
+
+(* info: version and layer bits of any header the writer model serialises; any bytes behind
+   honest callbacks give a status, never a crash; the seek callback (None on this path) is
+   never looked at *)
+Theorem C20_info_reports_header : forall LIMIT (C : cbsrc) (a : bytes) R c0 h data,
+  CbCursor C a R -> len a < 2 ^ 63 -> a = ser_header h ++ data ->
+  wf_enc_opt h -> config_size h <= LIMIT -> R c0 0 ->
+  roarchive_info LIMIT true true C c0 = (Ret Success, Some (VERSION, h_layers h)).
+Proof. exact info_reports_header. Qed.
+Theorem C20_info_total : forall LIMIT (C : cbsrc) (a : bytes) R c0 p rcb io,
+  CbCursor C a R -> len a < 2 ^ 63 -> R c0 p ->
+  exists st o, roarchive_info LIMIT rcb io C c0 = (Ret st, o).
+Proof. exact info_total. Qed.
+Theorem C20_info_never_seeks : forall LIMIT (C : cbsrc) (c0 : cb_st C),
+  read_header_S LIMIT (CbIn C false) c0 = read_header_S LIMIT (CbIn C true) c0.
+Proof. exact info_never_seeks. Qed.
+
+(* what a read callback REPORTING more bytes than it was asked for does (the adapter trusts
+   the count): the slice handed upward is longer than the request — the crash arms 900 / 901 /
+   1123 of the consumers (std's read_exact slices out of range, Take::read asserts) *)
+Theorem C20_overreporting_read_reaches_consumers : forall C s n s' lr d,
+  cb_read C s (clamp_u32 n) = (s', (0, lr, d)) -> len d <= lr ->
+  exists x, cbin_rd C s n = (s', Ok x) /\ len x = lr.
+Proof. exact cbin_rd_overreport. Qed.
+
+(* non-vacuity: the callback family the correspondence job runs implements a cursor for every
+   read-size limit (1 byte at a time included) *)
+Example C20_curcb_is_cursor : forall a rmode,
+  CbCursor (CurCb a rmode 0 0) a (fun s p => cu_pos s = p /\ p <= len a).
+Proof. exact curcb_cursor. Qed.
+
+Print Assumptions C20_adapter_is_cursor.
+Print Assumptions C20_extract_delivers.
+Print Assumptions C20_extract_write_failure.
+Print Assumptions C20_extract_null_writer.
+Print Assumptions C20_info_reports_header.
+Print Assumptions C20_info_total.
+Print Assumptions C20_info_never_seeks.
